@@ -4,6 +4,6 @@ P=$1; shift
 export VERIF_EVIDENCE_DIR=${VERIF_EVIDENCE_DIR:-/tmp/verif_scratch_evidence}   # never overwrite the registered evidence
 cd /repo || exit 2
 [ -z "$(git status --porcelain --untracked-files=no)" ] || { echo "refusing: /repo dirty"; exit 2; }
-git apply "$P" || git apply -3 "$P" || { echo APPLY_FAILED; git checkout -q -- .; exit 2; }
+git apply "$P" || git apply -3 "$P" || { echo APPLY_FAILED; git reset -q --hard HEAD; exit 2; }
 for p in "$@"; do (cd /verif && ./check $p 2>&1 | grep -E "^  rule|^C[0-9]+ \[|BROKEN|anchor" | cut -c1-400 | head -8); done
-git checkout -q -- . ; git status --porcelain --untracked-files=no | head -3
+git reset -q --hard HEAD; git status --porcelain --untracked-files=no | head -3
